@@ -211,8 +211,10 @@ expr_t::ptr_op_t expr_t::op_t::compile(scope_t& scope, const int depth,
     } else {
       ptr_op_t intermediate(copy(lhs, rhs));
 
-      // Reduce constants immediately if possible
-      if ((! lhs || lhs->is_value()) && (! rhs || rhs->is_value()))
+      // Reduce constants immediately if possible (the two branches of a
+      // conditional are not an operation on their own)
+      if (kind != O_COLON &&
+          (! lhs || lhs->is_value()) && (! rhs || rhs->is_value()))
         result = wrap_value(intermediate->calc(*scope_ptr, NULL, depth + 1));
       else
         result = intermediate;
